@@ -2,6 +2,8 @@ package props
 
 import (
 	"fmt"
+	tls "github.com/refraction-networking/utls"
+	"strings"
 	"sync"
 	"testing"
 
@@ -151,6 +153,184 @@ func TestC10(t *testing.T) {
 	})
 	for k, v := range refusals {
 		r.Note(fmt.Sprintf("allowed refusal %s x%d", k, v))
+	}
+	// returning clients: the same name is visited twice through one session cache and the
+	// server (same ticket keys, as in a server pool) makes a different - offered - choice the
+	// second time: another suite, another group (HelloRetryRequest), another version. The
+	// second connection must complete whether or not the session is resumed.
+	{
+		type rjob struct {
+			t      Target
+			first  GridCase
+			second GridCase
+		}
+		var rjobs []rjob
+		var ticketKey [32]byte
+		copy(ticketKey[:], "verif C10 returning clients key.")
+		rtargets := append([]Target{}, ParrotTargets(true)...)
+		for i := 0; i < mon.Pick(30, 600); i++ {
+			rtargets = append(rtargets, CustomTarget(i))
+		}
+		for i := 0; i < mon.Pick(10, 200); i++ {
+			rtargets = append(rtargets, RandomizedTarget(i))
+		}
+		for ti, tg := range rtargets {
+			if tg.Pre != nil {
+				continue
+			}
+			ch, err := tg.Probe("example.test")
+			if err != nil {
+				continue
+			}
+			o := OfferOf(ch, targetMinVersion(tg))
+			grid := GridFor(o, true, Sub("C10returning", ti))
+			var firsts, seconds []GridCase
+			for _, gc := range grid {
+				switch gc.Dim {
+				case "suite13", "suite12", "group13", "version":
+					seconds = append(seconds, gc)
+					if gc.Dim == "suite13" || gc.Dim == "version" || (gc.Dim == "suite12" && len(firsts) < 4) {
+						firsts = append(firsts, gc)
+					}
+				}
+			}
+			// every ordered pair of offered TLS 1.3 suites (a ticket issued under one suite is
+			// valid for every suite with the same hash)
+			if ti < len(AllParrots)+1 || mon.Thorough() {
+				for _, a := range grid {
+					for _, b := range grid {
+						if a.Dim == "suite13" && b.Dim == "suite13" {
+							rjobs = append(rjobs, rjob{tg, a, b})
+						}
+					}
+				}
+			}
+			rg := Sub("C10returning-pick", ti)
+			n := mon.Pick(6, 40)
+			if ti < len(AllParrots)+1 {
+				n = mon.Pick(14, 120)
+			}
+			for k := 0; k < n && len(firsts) > 0 && len(seconds) > 0; k++ {
+				rjobs = append(rjobs, rjob{tg, firsts[rg.Intn(len(firsts))], seconds[rg.Intn(len(seconds))]})
+			}
+		}
+		r.Count("returning_planned", int64(len(rjobs)))
+		parallel(len(rjobs), func(i int) {
+			j := rjobs[i]
+			cache := tls.NewLRUClientSessionCache(4)
+			withCache := func(c *tls.Config) {
+				c.ClientSessionCache = cache
+				c.PreferSkipResumptionOnNilExtension = true
+			}
+			s1, s2 := j.first.Server.Clone(), j.second.Server.Clone()
+			s1.SetSessionTicketKeys([][32]byte{ticketKey})
+			s2.SetSessionTicketKeys([][32]byte{ticketKey})
+			f, sd := j.first, j.second
+			f.Server, sd.Server = s1, s2
+			h1 := RunCase(j.t, f, "example.test", withCache, peer.Opts{})
+			if !h1.OK() {
+				return // the single-connection sweep above judges first connections
+			}
+			h := RunCase(j.t, sd, "example.test", withCache, peer.Opts{})
+			outcome := "ok"
+			switch {
+			case h.ClientPanic != "" || h.ServerPanic != "":
+				outcome = "panic"
+				r.Violation(map[string]string{"kind": "handshake_panic", "target": family(j.t.Name), "dim": "returning:" + sd.Dim}, fmt.Sprintf("%s returning (%s=%s then %s=%s): panic client=%q server=%q", j.t.Name, f.Dim, f.Val, sd.Dim, sd.Val, firstLine(h.ClientPanic), firstLine(h.ServerPanic)), nil)
+			case h.OK():
+				r.Count("returning_completed", 1)
+				if h.CState.DidResume {
+					r.Count("returning_resumed", 1)
+					if h.CState.CipherSuite != h1.CState.CipherSuite {
+						r.Count("returning_resumed_with_another_suite", 1)
+					}
+					if sawHRR(h.S2C) {
+						r.Count("returning_resumed_after_hrr", 1)
+					}
+				}
+			default:
+				allowed, class := classifyFailure(h)
+				outcome = class
+				if allowed {
+					r.Count("server_refused", 1)
+					break
+				}
+				sig := map[string]string{"kind": "client_aborts_offered_choice", "class": class, "target": family(j.t.Name), "dim": "returning:" + sd.Dim}
+				if g := hrrGroup(h.S2C); g == 0x11ec || g == 0x6399 {
+					sig = map[string]string{"kind": "client_aborts_offered_choice", "class": "hybrid_group_requested_by_hello_retry_request"}
+				} else if h.ClientErr != nil && strings.Contains(h.ClientErr.Error(), "does not support reprocessing of PSK key") {
+					// F10b (known, also listed under C19): a preset that offers a cached TLS 1.3
+					// session cannot answer a HelloRetryRequest
+					sig = map[string]string{"kind": "client_aborts_offered_choice", "class": "psk_offered_and_hello_retry_request"}
+				}
+				r.Violation(sig, fmt.Sprintf("%s returning to the same name (first %s=%s, then %s=%s): the second handshake failed although the hello offers this choice (%s): client=%v server=%v", j.t.Name, f.Dim, f.Val, sd.Dim, sd.Val, class, h.ClientErr, h.ServerErr), map[string]any{"target": j.t.Name, "first": f.Dim + "=" + f.Val, "second": sd.Dim + "=" + sd.Val})
+			}
+			r.Case(fmt.Sprintf("returning|%s|%s|%s=%s|%v|%s", family(j.t.Name), f.Dim, sd.Dim, sd.Val, h.CState.DidResume, outcome), outcome == "ok")
+		})
+		r.Floor("returning_completed", int64(len(rjobs)/2))
+		r.Floor("returning_resumed", 20)
+		r.Floor("returning_resumed_with_another_suite", 8)
+	}
+	// one Config shared by two connections with different fingerprints (a Config "may be
+	// reused"): another connection applies its preset between this connection's hello being
+	// built and its handshake. What this hello offers is still what the server may choose.
+	{
+		var narrow, wide []Target
+		for _, tg := range ParrotTargets(true) {
+			ch, err := tg.Probe("example.test")
+			if err != nil || tg.Pre != nil || tg.Edit != nil {
+				continue
+			}
+			if o := OfferOf(ch, targetMinVersion(tg)); o.Has(tls.VersionTLS13) && len(o.Suites13) > 0 {
+				wide = append(wide, tg)
+			} else {
+				narrow = append(narrow, tg)
+			}
+		}
+		type pair struct{ a, b Target }
+		var pairs []pair
+		for i, a := range wide {
+			if len(narrow) > 0 {
+				pairs = append(pairs, pair{a, narrow[i%len(narrow)]})
+			}
+		}
+		for i, a := range narrow {
+			pairs = append(pairs, pair{a, wide[i%len(wide)]})
+		}
+		parallel(len(pairs), func(i int) {
+			pr := pairs[i]
+			var shared *tls.Config
+			a := pr.a
+			a.Style = StylePlain
+			a.Edit = func(u *tls.UConn) error {
+				other := tls.UClient(nil, shared, pr.b.ClientID())
+				if err := pr.b.Prepare()(other); err != nil {
+					return err
+				}
+				return other.BuildHandshakeState()
+			}
+			h := RunCase(a, GridCase{Dim: "shared-config", Val: "default-server", Server: peer.ServerConfig()}, "example.test", func(c *tls.Config) { shared = c }, peer.Opts{})
+			outcome := "ok"
+			switch {
+			case h.OK():
+				r.Count("shared_config_completed", 1)
+			default:
+				allowed, class := classifyFailure(h)
+				outcome = class
+				if allowed {
+					break
+				}
+				// F56 (known): SetTLSVers writes the preset's version range into the caller's Config
+				sig := map[string]string{"kind": "client_aborts_offered_choice", "class": class, "target": family(pr.a.Name), "dim": "shared-config"}
+				if h.ClientErr != nil && strings.Contains(h.ClientErr.Error(), "server selected unsupported protocol version") {
+					sig = map[string]string{"kind": "client_aborts_offered_choice", "class": "shared_config_version_range_overwritten_by_another_connection"}
+				}
+				r.Violation(sig, fmt.Sprintf("%s, Config shared with a connection that applied %s after this hello was built: handshake failed although the hello offers the server's choice (%s): client=%v server=%v", pr.a.Name, pr.b.Name, class, h.ClientErr, h.ServerErr), map[string]any{"target": pr.a.Name, "other": pr.b.Name})
+			}
+			r.Case(fmt.Sprintf("shared-config|%s|%s|%s", family(pr.a.Name), family(pr.b.Name), outcome), outcome == "ok")
+		})
+		r.Count("shared_config_pairs", int64(len(pairs)))
+		r.Floor("shared_config_pairs", 20)
 	}
 	// independent peer (optional): OpenSSL s_server; quick = 2 configurations per parrot,
 	// thorough = every applicable configuration for every target
